@@ -24,9 +24,61 @@ use std::os::raw::c_long;
 use write_fonts::tables::glyf::{Bbox, Contour, GlyfLocaBuilder, Glyph, SimpleGlyph};
 use write_fonts::tables::{head::Head, hhea::Hhea, hmtx::Hmtx, hmtx::LongMetric, maxp::Maxp};
 
+#[repr(C)]
+struct FtVector {
+    x: c_long,
+    y: c_long,
+}
+
 extern "C" {
     fn FT_MulFix(a: c_long, b: c_long) -> c_long;
     fn FT_DivFix(a: c_long, b: c_long) -> c_long;
+    fn FT_Vector_NormLen(v: *mut FtVector) -> u32;
+}
+
+/// `normalize14` (skrifa hook `hint_arith::normalize14`) vs Model/HintVec.lean and the linked
+/// `FT_Vector_NormLen` vs Model/FtVec.lean, on i16 stack vectors, point differences and extreme i32 operands;
+/// oracles (real vs real): skrifa's result is FreeType's vector / 4 truncated to a short, and the Newton
+/// iteration ends below 2^17 (the hypothesis `NormSmall` of the `_partial` theorems), i.e. |V| < 131072.
+fn normalize_kernels(cfg: &Config, s: &mut Session) {
+    use skrifa::outline::verif_hooks::hint_arith as ha;
+    let mut rng = Rng::new(cfg.seed ^ 0x4012);
+    let mut one = |s: &mut Session, x: i32, y: i32| {
+        let mut v = FtVector { x: x as c_long, y: y as c_long };
+        unsafe { FT_Vector_NormLen(&mut v) };
+        s.case("ft.normlen", format!("ft.normlen {x} {y}"), format!("{} {}", v.x, v.y));
+        let sk = catch(|| ha::normalize14(x, y));
+        s.case("sk.norm", format!("sk.norm {x} {y}"), match &sk {
+            Ok((a, b)) => format!("{a} {b}"),
+            Err(_) => "trap".into(),
+        });
+        if (x, y) != (0, 0) {
+            let small = (v.x as i64).abs() < 131072 && (v.y as i64).abs() < 131072;
+            s.oracle("normalize:newton-result-below-2^17", small, || format!("normalize {x} {y}"), || format!("FT_Vector_NormLen -> {} {}", v.x, v.y));
+            let expect = (((v.x as i64) / 4) as i16 as i32, ((v.y as i64) / 4) as i16 as i32);
+            s.oracle("kernel:normalize14==Normalize", sk == Ok(expect), || format!("normalize {x} {y}"), || format!("skrifa {sk:?} freetype {expect:?}"));
+        }
+    };
+    let edge: Vec<i32> = vec![i32::MIN, i32::MIN + 1, -0x10000, -0x8000, -0x4000, -16352, -1025, -1024, -1023, -3, -1, 0, 1, 2, 3, 4, 1023, 1024, 1025, 11585, 16352, 0x4000, 0x7FFF, 0x8000, 0xFFFF, 0x10000, 0x15555, 0xAAAA, 1 << 20, (1 << 30) - 1, 1 << 30, i32::MAX - 1, i32::MAX];
+    for &x in &edge {
+        for &y in &edge {
+            one(s, x, y);
+        }
+    }
+    let n = if cfg.thorough() { 400_000 } else { 40_000 };
+    for _ in 0..n {
+        let pick = |rng: &mut Rng| -> i32 {
+            match rng.below(5) {
+                0 => rng.range(-32768, 32767) as i32,
+                1 => rng.range(-70, 70) as i32,
+                2 => rng.range(-(1 << 21), 1 << 21) as i32,
+                3 => (rng.next() as i32) >> rng.below(31),
+                _ => rng.next() as i32,
+            }
+        };
+        let (x, y) = (pick(&mut rng), pick(&mut rng));
+        one(s, x, y);
+    }
 }
 
 pub type AOp = (u16, i32);
@@ -1115,6 +1167,7 @@ fn scan_control(s: &mut Session, lib: &freetype::Library, f: &PFont, ppem: u32, 
 }
 
 pub fn run(cfg: &Config, s: &mut Session) {
+    normalize_kernels(cfg, s);
     let mut rng = Rng::new(cfg.seed ^ 0x9406);
     let lib = freetype::Library::init().unwrap();
     for bc in [false, true] {
